@@ -5,7 +5,9 @@ import (
 	"bytes"
 	"context"
 	"fmt"
+	"io"
 	"testing"
+	"testing/iotest"
 
 	"github.com/0chain/common/core/util"
 	"github.com/linxGnu/grocksdb"
@@ -86,6 +88,24 @@ func checkNode(t fataler, where string, key []byte, n util.Node) (nontrivial boo
 	if !bytes.Equal(back.Encode(), enc) || !bytes.Equal(back.GetHashBytes(), n.GetHashBytes()) || back.GetNodeType() != n.GetNodeType() ||
 		back.GetOrigin() != n.GetOrigin() || back.GetVersion() != n.GetVersion() {
 		t.Fatalf("%s: %T does not round-trip: enc %x -> %x, hash %x -> %x", where, n, enc, back.Encode(), n.GetHashBytes(), back.GetHashBytes())
+	}
+	// the decoder takes any io.Reader: one that hands out the bytes in pieces must give the same node
+	for _, pr := range []struct {
+		name string
+		r    io.Reader
+	}{
+		{"one byte at a time", iotest.OneByteReader(bytes.NewReader(enc))},
+		{"type byte, then rest", io.MultiReader(bytes.NewReader(enc[:1]), bytes.NewReader(enc[1:]))},
+		{"half reads", iotest.HalfReader(bytes.NewReader(enc))},
+	} {
+		name := pr.name
+		piecewise, err := util.CreateNode(pr.r)
+		if err != nil {
+			t.Fatalf("%s: CreateNode from a reader delivering %s: %v", where, name, err)
+		}
+		if !bytes.Equal(piecewise.Encode(), enc) || !bytes.Equal(piecewise.GetHashBytes(), n.GetHashBytes()) {
+			t.Fatalf("%s: %T decoded from a reader delivering %s differs: enc %x -> %x", where, n, name, enc, piecewise.Encode())
+		}
 	}
 	for name, c := range map[string]util.Node{"CloneNode": n.CloneNode(), "Clone": n.Clone().(util.Node)} {
 		if !bytes.Equal(c.Encode(), enc) || !bytes.Equal(c.GetHashBytes(), n.GetHashBytes()) {
